@@ -109,7 +109,9 @@ def faulted_scenarios(tier):
     M1F = ("store_meta", "p1", "f2", "v1")
     bases = [("t1A||t2A", "Aunref", [T1A], [T2A]), ("M1||M2", "meta", [M1], [M2]), ("d1||t2A", "p1A", [D1], [T2A]),
              # the failing call is a delete-all walking TWO documents while a store of one of them waits / slips in between
-             ("Da||M1", "meta2", [DA], [M1]), ("Da||M1f", "meta2", [DA], [M1F])]
+             ("Da||M1", "meta2", [DA], [M1]), ("Da||M1f", "meta2", [DA], [M1F]),
+             # the failing call is a delete_if_invalid_object (invalid data) on an unreferenced object a store is about to bind
+             ("xA||s1A", "Aunref", [XA], [S1A])]
     if tier == "thorough":
         bases += [("d1||d2", "p1A,p2A", [D1], [D2]), ("M1||Da", "meta", [M1], [DA])]
     for name, init, a, b in bases:
